@@ -5,7 +5,7 @@ import os
 import subprocess
 
 HERE = os.path.dirname(os.path.dirname(os.path.abspath(__file__)))
-RULES = [('client-side node protocol', 'C19'), ('a value keeps results and flags', 'C04'), ('parent link of a directory listing', 'C16'), ('answered once', 'C15'), ('redirect raised in a nested', 'C15'), ('failing coroutine handler marks its value', 'C15'), ('irc', 'C18'), ('websocket', 'C17'), ('static serves', 'C16'), ('get_ranges', 'C16'), ('check_auth', 'C20'),
+RULES = [('body iterator that raises', 'C15'), ('client-side node protocol', 'C19'), ('a value keeps results and flags', 'C04'), ('parent link of a directory listing', 'C16'), ('answered once', 'C15'), ('redirect raised in a nested', 'C15'), ('failing coroutine handler marks its value', 'C15'), ('irc', 'C18'), ('websocket', 'C17'), ('static serves', 'C16'), ('get_ranges', 'C16'), ('check_auth', 'C20'),
          ('virtualhosts', 'C20'), ('head responses', 'C15'), ('chunked responses', 'C15'), ('streamed body', 'C15'),
          ('1xx, 204', 'C15'), ('205 responses', 'C15'), ('response.stream set', 'C15'), ('handler cache', 'C01'), ('removehandler', 'C01'),
          ('_success for an event', 'C04'), ('generator handler raises is still finished', 'C04/C05/C06'),
